@@ -779,6 +779,101 @@ def a_move_stmt(fn, bi, i):
     return True
 
 
+def c_ifexp_to_if(fn, ref):
+    """x = A if c else B   ->   if c: x = A  else: x = B"""
+    out = []
+    for bi, (o, f) in enumerate(blocks(fn)):
+        for i, s in enumerate(getattr(o, f)):
+            if isinstance(s, ast.Assign) and len(s.targets) == 1 and isinstance(s.value, ast.IfExp):
+                if isinstance(s.targets[0], ast.Name) and s.targets[0].id in ref["new"]:
+                    continue  # a NEW local is inlined into its use instead (norm.inline_new_locals)
+                out.append((bi, i))
+    return out
+
+
+def a_ifexp_to_if(fn, bi, i):
+    o, f = blocks(fn)[bi]
+    b = getattr(o, f)
+    s = b[i]
+    b[i] = ast.If(s.value.test, [ast.Assign(copy.deepcopy(s.targets), s.value.body)], [ast.Assign(copy.deepcopy(s.targets), s.value.orelse)])
+    return True
+
+
+def c_if_to_ifexp(fn, ref):
+    out = []
+    for bi, (o, f) in enumerate(blocks(fn)):
+        for i, s in enumerate(getattr(o, f)):
+            if (isinstance(s, ast.If) and len(s.body) == 1 and len(s.orelse) == 1 and isinstance(s.body[0], ast.Assign) and isinstance(s.orelse[0], ast.Assign)
+                    and len(s.body[0].targets) == 1 and len(s.orelse[0].targets) == 1 and ast.dump(s.body[0].targets[0]) == ast.dump(s.orelse[0].targets[0])):
+                out.append((bi, i))
+    return out
+
+
+def a_if_to_ifexp(fn, bi, i):
+    o, f = blocks(fn)[bi]
+    b = getattr(o, f)
+    s = b[i]
+    b[i] = ast.Assign(s.body[0].targets, ast.IfExp(s.test, s.body[0].value, s.orelse[0].value))
+    return True
+
+
+def _bool_only_uses(fn, nm):
+    parents = {}
+    for p in ast.walk(fn):
+        for c in ast.iter_child_nodes(p):
+            parents[c] = p
+    for n in ast.walk(fn):
+        if isinstance(n, ast.Name) and n.id == nm and isinstance(n.ctx, ast.Load):
+            c, p = n, parents.get(n)
+            while isinstance(p, ast.BoolOp) or (isinstance(p, ast.UnaryOp) and isinstance(p.op, ast.Not)):
+                c, p = p, parents.get(p)
+            if not (isinstance(p, (ast.If, ast.While, ast.IfExp)) and p.test is c):
+                # a flag that is only handed on (returned / passed) keeps its truth value but may change type: not rewritten
+                return False
+    return True
+
+
+def c_flag_into_arms(fn, ref):
+    """flag = C ; if flag: A [else: B]   ->   if C: flag = True; A  else: flag = False; B
+    Only when every other use of the flag is a truth test OR the condition C is a comparison / boolean of comparisons (already a bool)."""
+    out = []
+    for bi, (o, f) in enumerate(blocks(fn)):
+        b = getattr(o, f)
+        for i in range(len(b) - 1):
+            s, t = b[i], b[i + 1]
+            if (isinstance(s, ast.Assign) and len(s.targets) == 1 and isinstance(s.targets[0], ast.Name) and isinstance(t, ast.If)
+                    and isinstance(t.test, ast.Name) and t.test.id == s.targets[0].id):
+                nm = s.targets[0].id
+                stores = sum(1 for n in ast.walk(fn) if isinstance(n, ast.Name) and n.id == nm and isinstance(n.ctx, (ast.Store, ast.Del)))
+                if stores == 1 and nm not in _names(s.value) and (_is_boolean_expr(s.value) or _bool_only_uses(fn, nm)):
+                    out.append((bi, i))
+    return out
+
+
+def _is_boolean_expr(e):
+    if isinstance(e, ast.Compare):
+        return all(isinstance(op, (ast.Is, ast.IsNot, ast.In, ast.NotIn)) for op in e.ops) or not any(isinstance(n, (ast.Call, ast.Subscript, ast.Attribute)) for n in ast.walk(e))
+    if isinstance(e, ast.BoolOp):
+        return all(_is_boolean_expr(v) for v in e.values)
+    if isinstance(e, ast.UnaryOp) and isinstance(e.op, ast.Not):
+        return True
+    if isinstance(e, ast.Call) and isinstance(e.func, ast.Name) and e.func.id in ("isinstance", "callable", "bool", "hasattr", "issubclass"):
+        return True
+    return False
+
+
+def a_flag_into_arms(fn, bi, i):
+    o, f = blocks(fn)[bi]
+    b = getattr(o, f)
+    s, t = b[i], b[i + 1]
+    nm = s.targets[0].id
+    t.test = s.value
+    t.body.insert(0, ast.Assign([ast.Name(nm, ast.Store())], ast.Constant(True)))
+    t.orelse.insert(0, ast.Assign([ast.Name(nm, ast.Store())], ast.Constant(False)))
+    del b[i]
+    return True
+
+
 REWRITES = [
     ("rename", c_rename, a_rename),
     ("else-hoist", c_else_hoist, a_else_hoist),
@@ -806,13 +901,18 @@ REWRITES = [
     ("same-test-merge", c_same_test_merge, a_same_test_merge),
     ("same-test-split", c_same_test_split, a_same_test_split),
     ("move-stmt", c_move_stmt, a_move_stmt),
+    ("ifexp-to-if", c_ifexp_to_if, a_ifexp_to_if),
+    ("if-to-ifexp", c_if_to_ifexp, a_if_to_ifexp),
+    ("flag-into-arms", c_flag_into_arms, a_flag_into_arms),
 ]
 
 
 BUDGET = 500  # candidate rewrites evaluated per function (each costs a copy + unparse of the function)
 # look-ahead: first steps that do not themselves recover reference lines but enable a second step that does
-ENABLERS = {"else-unhoist", "else-hoist", "swap-arms", "ret-ifexp-split", "early-return-to-if", "if-to-early-return", "continue-to-if", "if-to-continue", "nested-merge", "nested-split"}
+ENABLERS = {"flag-into-arms", "ifexp-to-if", "else-unhoist", "else-hoist", "swap-arms", "ret-ifexp-split", "early-return-to-if", "if-to-early-return", "continue-to-if", "if-to-continue", "nested-merge", "nested-split"}
 FOLLOWERS = {
+    "flag-into-arms": {"move-stmt", "swap-arms", "swap-stmts"},
+    "ifexp-to-if": {"swap-arms"},
     "else-unhoist": {"retvar-intro", "drop-tail-return", "swap-arms", "else-unhoist"},
     "else-hoist": {"retvar-elim", "ret-ifexp-merge", "else-hoist"},
     "swap-arms": {"else-hoist", "else-unhoist", "retvar-intro"},
